@@ -211,6 +211,7 @@ class Env:
         #: CancelTask objects seen by a task's own code in the current time step (kept only
         #: until the step ends: id() of a dead object may be handed out again)
         self.cancel_delivered = {}
+        self.start_dates = {}     # task instance name -> date before which none of its code runs
         self.await_results = {}   # task instance name -> [(awaiter, kind, ident)]
         self.returned = {}        # task instance name -> repr of what its payload returned
         self.awaiting = {}        # key -> (awaiter, task instance name, task, since): in `await task`
@@ -686,6 +687,8 @@ def spawn(env, ctx, scope, key, child):
             env.log(ctx.name, 'spawn-skipped', name)
             return None
         kwargs['at'] = child['at']
+    if 'at' in kwargs or 'after' in kwargs:
+        env.start_dates[name] = kwargs['at'] if 'at' in kwargs else time.now + kwargs['after']
     env.junk()
     info = env.scope_inst.get(key)
     was_left = info is not None and info.get('left') is not None
@@ -1521,6 +1524,13 @@ class LifecycleMonitor:
         for index, event in enumerate(sess.events):
             if event[2] == 'begin':
                 begun.setdefault(event[1], (index, event[0]))
+                due = env.start_dates.get(event[1])
+                if due is not None and event[0] < due:
+                    # (a task that is to start later has not started: cancelling it meanwhile
+                    # must find it unstarted)
+                    sess.violation('c06:cancelled-before-start-but-ran',
+                                   'task %s was to start at %r but its code began to run at %r'
+                                   % (event[1], due, event[0]))
             if event[2] == 'fail' and event[3] == 'CancelTask':
                 cancel_seen[event[1]] = event[0]
         for name, calls in env.cancel_calls.items():
